@@ -364,7 +364,12 @@ func c24IMSValues() []c24IMS {
 	}
 }
 
-var c24AEs = []string{"", "gzip", "br", "zstd"}
+func c24AEList(thorough bool) []string {
+	if thorough {
+		return []string{"", "gzip", "br", "zstd", "gzip, br, zstd", "zstd, gzip", "identity", "deflate", "br;q=1.0, gzip;q=0.5"}
+	}
+	return []string{"", "gzip", "br", "zstd"}
+}
 
 // ---------------------------------------------------------------------------------------------------------------
 // one request
@@ -502,7 +507,7 @@ func c24CheckResp(cio *c24IO, f *c24File, method, ae string, v c24Verdict, imsLa
 	cr := res.H.Get("Content-Range")
 	ce := res.H.Get("Content-Encoding")
 	check200 := func() (string, string) {
-		if ce != "" && !strings.Contains(ae, ce) {
+		if ce != "" && !strings.Contains(strings.ToLower(ae), ce) {
 			return "200-content-encoding-not-accepted:" + ce, fmt.Sprintf("Content-Encoding %q with Accept-Encoding %q", ce, ae)
 		}
 		if cr != "" {
@@ -745,6 +750,7 @@ func TestVerif_C24(t *testing.T) {
 		return
 	}
 	sizes := c24Sizes(r)
+	c24AEs := c24AEList(r.Thorough())
 	alpha := seqx.Sym("bytes=", "0", "1", "9", "-", ",", " ", "a")
 	maxLen := vrt.Pick(r, 7, 8)
 	r.Rule(fmt.Sprintf("(1) FS handler (AcceptByteRange, Compress+Brotli+Zstd; variants %v) on files of sizes %v (compressible text and incompressible noise, mtime with a sub-second part) "+
@@ -761,6 +767,7 @@ func TestVerif_C24(t *testing.T) {
 			}
 			return s
 		}(), sizes, c24AEs, maxLen, alpha))
+	r.Set("accept_encodings", c24AEs)
 	r.Assume("net/http.ServeContent as second reference, with two documented deviations (empty file => 200; zero-length suffix => empty 206)",
 		"net/http.ReadResponse as the judge of response framing; compress/gzip, andybalholm/brotli and klauspost/compress/zstd decoders",
 		"strict 206/416 verdict only for the exact forms bytes=D-D, bytes=D-, bytes=-D (DESIGN 3.7); numerals above MaxInt64, invalid int-ranges, list/whitespace/case variants and a non-zero suffix on an empty file are relaxed",
